@@ -239,6 +239,20 @@ func c13TP(c *Ctx) {
 	c.cut(R, "drop:unparseable long header", &Cut{Fn: hop, Target: CallsTo(lhObj), Edge: EdgeRel(Rel{Op: token.EQL, X: CallTo(parsePkt, 3), Y: IsNil()}, false)},
 		"a long-header packet that failed to parse is never handled")
 	c.checkCallers(R, lhObj, c.set([3]string{"", "Conn", "handleOnePacket"}), 1)
+	// idle-timer bookkeeping happens only for packets that passed decryption AND the duplicate
+	// gate: it lives in the two handleUnpacked*Packet functions (which are only reached past
+	// IsPotentiallyDuplicate()==false, see C07.3 / C01.1), so replayed packets cannot defer timeouts
+	for _, fn := range []string{"lastPacketReceivedTime", "keepAlivePingSent"} {
+		fld := c.fld("", "Conn", fn)
+		allowed := c.set([3]string{"", "Conn", "preSetup"}, [3]string{"", "Conn", "handleUnpackedLongHeaderPacket"}, [3]string{"", "Conn", "handleUnpackedShortHeaderPacket"}, [3]string{"", "Conn", "run"})
+		c.checkWriters(R, fld, allowed, 3)
+	}
+	dup := c.obj(ah, "ReceivedPacketHandler", "IsPotentiallyDuplicate")
+	for _, pr := range [][2]string{{"handleShortHeaderPacket", "handleUnpackedShortHeaderPacket"}, {"handleLongHeaderPacket", "handleUnpackedLongHeaderPacket"}} {
+		g := c.fn("", "Conn", pr[0])
+		h := c.obj("", "Conn", pr[1])
+		c.cut(R, "gate:"+pr[1]+" only for non-duplicates", &Cut{Fn: g, Target: CallsTo(h), Edge: EdgeRel(BoolTrue(CallTo(dup, -1)), true)}, "timer bookkeeping and frame handling happen only for new packets")
+	}
 }
 
 func c13Run(c *Ctx) {
